@@ -1,5 +1,5 @@
 """C10 (responder side): see DESIGN.md section 7; monitor spec/TraceRespond.tla over spec/Responder.tla."""
-from . import daemon
+from . import cachemech, core, daemon
 
 PROP = "C10"
 PREFIXES = ["C10."]
@@ -15,9 +15,17 @@ def run(tier, seed, t0):
     return daemon.run_group(PROP, tier, seed, t0,
                             [("respond", []), ("browse", [], "TraceBrowse", "TraceBrowse.cfg", 60, 1500)],
                             "TraceRespond", "TraceRespond.cfg", PREFIXES,
-                            [("MCResponder", "MCResponder.cfg")], ["C10.suppressed", "C10.kept", "C10.known-answer"], ASSUME,
-                            RULE + " Querier side: driver family 'browse' (known answers the daemon lists in its own initial, retransmitted and refresh queries).")
+                            [("MCResponder", "MCResponder.cfg")], ["C10.suppressed", "C10.kept", "C10.known-answer", "C10.cache-known-some", "C10.cache-known-omitted"],
+                            ASSUME + cachemech.ASSUME,
+                            RULE + " Querier side: driver family 'browse' (known answers the daemon lists in its own initial, retransmitted and refresh queries); "
+                            "component level: family 'cacherand' - which cached records get_known_answers lists (shared records in the first half of their life), "
+                            "judged by TraceCache.tla (clause C10.cache-known).",
+                            pre=lambda v, t, s: cachemech.light(PROP, PREFIXES, v, t, s))
 
 
 def replay(path, seed):
+    import json
+    case = json.load(open(path))["case"]
+    if case.get("args", {}).get("family") in ("cachecases", "cacherand"):
+        return cachemech.replay(PROP, PREFIXES, case, core.Verdict(PROP))
     return daemon.replay_group(path, "TraceRespond", "TraceRespond.cfg", PREFIXES, PROP)
